@@ -78,6 +78,8 @@ impl FilterSpec {
 pub struct GenInfo {
     pub policy: Policy,
     pub sched_seed: u64,
+    /// policies of the co-tasks (async scenario)
+    pub co_policies: Vec<Policy>,
 }
 
 #[derive(Clone, Debug, Default)]
